@@ -51,7 +51,7 @@ Example C13_perl_ex2 : fst (perl_parse_ucd [97;123;49;125]) = Err (PerlError [12
 Proof. vm_compute. reflexivity. Qed.
 
 (* ---------------------------------------------------------------- python-brace ---------------- *)
-From I18n Require Import Generated.PyConsts Generated.PyFmtInfo Model.FmtPyBrace Spec.CPyFormat Proofs.FmtPyBrace Proofs.FmtPyBraceMarkup Proofs.FmtPyBraceGen.
+From I18n Require Import Generated.PyConsts Generated.PyFmtInfo Model.FmtPyBrace Spec.CPyFormat Proofs.FmtPyBrace Proofs.FmtPyBraceMarkup Proofs.FmtPyBraceSpec Proofs.FmtPyBraceGen.
 
 (* pybrace_parse_gen      : model of lib/strformat/pybrace.py with the generated tables (what is extracted and compared)
    cpy_markup_ok          : Spec/CPyFormat.v part A, the iterator behind string.Formatter().parse
@@ -117,6 +117,25 @@ Theorem C13_py_flat_formats_refuted :
   (forall z, cpy_format re_d_value [123;58;43;99;125] [BInt z] [] = FValueError).
 Proof. split; [vm_compute; reflexivity|]. split; [intros z; reflexivity|]. split; [eexists; vm_compute; reflexivity|intros z; reflexivity]. Qed.
 Print Assumptions C13_py_flat_formats_refuted.
+
+(* ... and outside that defect the typing rules of Field.__init__ are sound for CPython's format(): if the parser gives a
+   brace-free format spec the type set tp, then a value of a type in tp (an int in range(0x110000), a float, a str) is
+   formatted by that spec (Spec/CPyFormat.v: parse_internal_render_format_spec + the per-type checks), unless the spec has
+   "," with b c o x X or a sign / "#" with c (spec_guard).  Proofs/FmtPyBraceSpec.v: CPython's spec parser is simulated by
+   the model's _format_spec_re scanner (parse_spec_sim), then every combination of type character, flags, alignment,
+   precision and value kind is checked.  This is the core of C13_py_flat_formats; the argument bookkeeping around it
+   (autonumbering, index / keyword lookup per field) is not proved. *)
+Theorem C13_py_spec_types_sound : forall U M, ucd_spec U M -> forall ftext tl tp v,
+  spec_types U M ftext tl = Ok tp -> forallb not_brace tl = true -> spec_guard U tl = true ->
+  val_in v tp = true -> format_value (u_decval U) v tl = FSuccess.
+Proof. exact spec_sound. Qed.
+Print Assumptions C13_py_spec_types_sound.
+
+Theorem C13_py_spec_types_sound_generated_tables : forall ftext tl tp v,
+  spec_types gen_ucd gen_pybrace_ssize_max ftext tl = Ok tp -> forallb not_brace tl = true -> spec_guard gen_ucd tl = true ->
+  val_in v tp = true -> format_value re_d_value v tl = FSuccess.
+Proof. exact gen_spec_sound. Qed.
+Print Assumptions C13_py_spec_types_sound_generated_tables.
 
 (* non-vacuity: "{²}" is a keyword field named "²" and "{٣}" is index 3, as for str.format; "{}{0}" is rejected (mixture);
    "{a} {:d} {!r:>5}" is accepted and formats *)
